@@ -136,6 +136,15 @@ CHECKS = {
             'preserving map onto the block, every block atom must be present, and the number of unrecognised atoms must equal the number of '
             'attached atoms (the largest possible match is the whole block by construction).',
             'At most 2 deviations from a shipped block; elements follow the library\'s first-letter rule.', '§4 C04'),
+    'C14': ('B', 'bounded exhaustive enumeration of unexplained-atom placements x modification sets on the real CanonicalizeModifications, brute-force exact-cover oracle',
+            'model_checking',
+            'A toy force field with a 4-atom residue block and six modifications (single and double added atoms, two sub-pattern pairs, two on '
+            'different anchors, one spanning two residues, one with a replace); molecules of 1-2 (thorough 3) residues with EVERY placement of '
+            '<=3/2 unexplained atoms (elements H, O, S and a foreign P; attached to every atom, chained, bridging) under the full family and its '
+            '5-subsets (thorough: every subset). All exact covers by induced placements are enumerated by brute force; the real result must be '
+            'one of them (names, labels on all atoms of the touched residues accumulated over groups, replacements) or, if none exists, the atoms '
+            'must be gone with one unknown-input warning per group.',
+            'Molecules are given in the post-RepairGraph state; any valid exact cover is accepted.', '§4 C14'),
     'C07': ('A+D', 'explicit-state BFS over deferred-writer histories with a dict file-system model; exhaustive crash-point/torn-write enumeration of every finalisation; audit-hook monitor over all library writers; full product of a CLI run alphabet through the script\'s own entry() bound to real sub-processes',
             'model_checking',
             'Four layers. (1) every enabled operation (open w/a/r+/wb incl. re-opens, files appearing from outside, write, close) in every '
